@@ -566,6 +566,16 @@ class ExprMixin:
             # in-place mutation of a run list owned by a pre-existing FmtStr: frame violation (C13-F1)
             self.oblige(st, "frame", z3.BoolVal(False), label=f"in-place {what} on an operand's run list")
 
+    def _list_hint(self, ref, st):
+        """element kind the sidecar declares for a local list (Loop.types: name -> tag)"""
+        for nm, v in st.env.items():
+            if isinstance(v, Ref) and v.oid == ref.oid:
+                for spec in (self.contract.loops or {}).values():
+                    t = (getattr(spec, "types", None) or {}).get(nm)
+                    if isinstance(t, str):
+                        return t
+        return None
+
     def _char_list_hint(self, ref, st):
         """a local list that the sidecar declares to be a list of 1-character strings (spec.types name -> 'char')"""
         for nm, v in st.env.items():
@@ -595,6 +605,16 @@ class ExprMixin:
         self.mutate_check(lv, st, "append")
         if lv.items is not None and isinstance(x, Sym) and x.tag == "str" and self._char_list_hint(ref, st):
             self._to_char_list(lv, st)
+        if lv.items is not None and not lv.items and isinstance(x, Sym) and x.tag == "bytes" and self._list_hint(ref, st) == "byte1":
+            lv.items, lv.tag, lv.t, lv.origin = None, "byte1", z3.Empty(T.SI), None
+        if lv.items is None and lv.tag == "byte1":
+            if not (isinstance(x, (bytes, Sym)) and (isinstance(x, bytes) or x.tag == "bytes")):
+                raise Unsupported(f"append of {x!r} to a list of single bytes")
+            xt = str_term(x)
+            if not self.decide(z3.Length(xt) == 1, st):
+                raise Unsupported("append of a bytes value that is not one byte long to a list of single bytes")
+            lv.t, lv.origin = z3.Concat(lv.t, xt), None
+            return
         if lv.items is None and lv.tag == "char":
             if not (isinstance(x, (str, Sym)) and (isinstance(x, str) or x.tag == "str")):
                 raise Unsupported(f"append of {x!r} to a character list")
@@ -662,6 +682,10 @@ class ExprMixin:
     def elem_value(self, tag, term):
         if tag == "int":
             return mk_int(term)
+        if tag == "byte1":
+            return Sym("bytes", z3.Unit(term))
+        if tag == "char":
+            return Sym("str", z3.Unit(term))
         return Sym(tag, term)
 
     def list_index(self, lv, idx, st):
